@@ -450,7 +450,12 @@ func (c *qCase) runQuery(q qQuery) {
 	if target >= 0 {
 		classes = append(classes, "asof="+map[bool]string{true: "older", false: "latest"}[target < len(c.commits)-1], "asofmode="+mode)
 	}
-	desc := c.sig + " :: " + dsql
+	// the description names commits by ordinal: commit hashes differ from run to run
+	descRev := rev
+	if target >= 0 && rev == c.commits[target].Hash {
+		descRev = fmt.Sprintf("<hash of c%d>", target)
+	}
+	desc := c.sig + " :: " + qRender(q.SQL, mode, "db", descRev)
 	if derr != nil && merr != nil {
 		c.rec.Case(desc, false, append(classes, "both_error")...)
 		return
